@@ -549,26 +549,14 @@ func c05CheckTrimmed(c *Ctx, cs *c05Case, level string, out []byte, U *gTable, r
 			a, b := U.Info[e.Src], U.Info[e.Dst]
 			uEdges[fmt.Sprintf("%s>%s=%d", a[len(a)-1].PrintableName(), b[len(b)-1].PrintableName(), e.Wt.V)]++
 		}
-		rebuilt := len(pr.Nodes) < len(U.Flat)
-		// edges of the UNTRIMMED graph that lead to an entry which is never listed because all its
-		// figures are zero: dot prints them as "-> N0" (an oddity outside this property: the entry
-		// is not removed by trimming, it is not an entry of any report)
-		zeroEdges := map[string]bool{}
-		for _, e := range U.Edges {
-			if _, listed := U.Flat[e.Dst]; !listed {
-				a := U.Info[e.Src]
-				zeroEdges[fmt.Sprintf("%s=%d", a[len(a)-1].PrintableName(), e.Wt.V)] = true
-			}
-		}
 		for _, n := range pr.Nodes {
 			for _, e := range n.Out {
 				if e.Name == unlistedName {
-					if rebuilt && !zeroEdges[fmt.Sprintf("%s=%d", n.Name, e.W)] {
-						c.Violation(sig+"dangling-edge", fmt.Sprintf("edge from %q to an entry that is not declared", n.Name)+desc, cs)
-						return false
-					}
-					c.Res.Hit("dot-edge-to-unlisted-zero-entry")
-					continue
+					// DOT edge to a node id that is not declared (entries that are not listed — removed
+					// by trimming or never listed because all their figures are zero — have no DOT node;
+					// ComposeDot skips such edges since fix 1120e19)
+					c.Violation(sig+"dangling-edge", fmt.Sprintf("edge from %q to an entry that is not declared", n.Name)+desc, cs)
+					return false
 				}
 				if cs.Format == "dot" && !e.Residual && uEdges[fmt.Sprintf("%s>%s=%d", n.Name, e.Name, e.W)] == 0 {
 					c.Violation(sig+"nonresidual-edge-weight", fmt.Sprintf("edge %q -> %q (%d) is not marked residual but the untrimmed report has no such edge weight", n.Name, e.Name, e.W)+desc, cs)
@@ -580,9 +568,13 @@ func c05CheckTrimmed(c *Ctx, cs *c05Case, level string, out []byte, U *gTable, r
 			}
 		}
 		if cs.Format == "dot" {
+			declared := map[int]bool{}
+			for _, n := range pr.Nodes {
+				declared[n.ID] = true
+			}
 			for _, e := range pr.DotEdges {
-				if e.From == 0 && rebuilt {
-					c.Violation(sig+"dangling-edge", "edge from an undeclared entry"+desc, cs)
+				if !declared[e.From] || !declared[e.To] {
+					c.Violation(sig+"dangling-edge", fmt.Sprintf("edge N%d -> N%d refers to an undeclared node", e.From, e.To)+desc, cs)
 					return false
 				}
 			}
@@ -843,7 +835,7 @@ func c05PickKept(r *Rng, strategy string, g *graph.Graph, order []*graph.Node) [
 var c05KeptStrategies = []string{"random", "remove-leaves", "remove-roots", "remove-middles", "remove-one", "remove-all", "keep-one", "cutoff", "top-n"}
 
 func runC05(c *Ctx) {
-	c.Res.Rule = "profiles as for C04 (9 stack-shape strategies, small values so that fraction products are exact) × (a) graph.New rebuilt with a kept set chosen by 9 strategies (random, remove leaves / roots / chain middles / one / all, keep one, cum cutoff, top-N) — shown figures vs the untrimmed graph.New and vs the Lean Spec under K incl. residual weights and marks, model correspondence; (b) TrimTree on call trees with kept pointer sets — vs Lean Spec on path keys; (c) report.Generate text/tree/topproto/dot with nodecount × nodefraction × edgefraction × sort grids — shown rows ⊆ untrimmed rows, selection = Lean Trim model, legend 'accounting for' = Σ shown flat, dot residual marks vs Spec under the survivor set, no dangling edges; (d) the same through the pprof CLI. non-trivial = the trimming removed at least one entry; distinct by canonical profile + options"
+	c.Res.Rule = "profiles as for C04 (9 stack-shape strategies, small values so that fraction products are exact) × (a) graph.New rebuilt with a kept set chosen by 9 strategies (random, remove leaves / roots / chain middles / one / all, keep one, cum cutoff, top-N) — shown figures vs the untrimmed graph.New and vs the Lean Spec under K incl. residual weights and marks, model correspondence; (b) TrimTree on call trees with kept pointer sets — direct oracle (kept nodes only, figures unchanged, every edge comes from an ancestor and is residual iff it bypasses a node, no edge to a removed node, In/Out agree), vs Lean Spec on path keys, and correspondence with the Lean model of TrimTree (In and Out maps of every listed node, node order as in Go, unlisted all-zero nodes included); (c) report.Generate text/tree/topproto/dot with nodecount × nodefraction × edgefraction × sort grids — shown rows ⊆ untrimmed rows, selection = Lean Trim model, legend 'accounting for' = Σ shown flat, dot residual marks vs Spec under the survivor set, no dangling edges; (d) the same through the pprof CLI. non-trivial = the trimming removed at least one entry; distinct by canonical profile + options"
 	if c.Replay != "" {
 		var cs c05Case
 		if err := c.LoadReplay(&cs); err != nil {
